@@ -65,25 +65,32 @@ var (
 	c20MACLens = []int{32, 0, 31}
 )
 
-// c20Pick: with parameter "multi" = 0 at most one part of the file deviates
-// from a well-formed one (part number `part` is the one allowed to, chosen by
-// "which"); with multi = 1 every part varies independently.
+// c20Pick: with which >= 0 only part number `which` of the file may deviate from
+// a well-formed one; with which < 0 every part varies independently.
 func c20Pick(which, part int, name string, n int) int {
-	if vs.Param("multi") == 0 && which != part {
+	if which >= 0 && which != part {
 		return 0
 	}
 	return vs.Choice(name, n)
 }
 
-// VerifC20_DecryptTotal: DecryptKey on a version-3 or version-1 file whose IV,
+// The totality harnesses: DecryptKey on a version-3 or version-1 file whose IV,
 // ciphertext and MAC are byte strings of various lengths, whose MAC is right
 // or wrong, and whose KDF parameters are missing / of the wrong JSON type /
 // out of range: it returns (an error or a key) and never panics; a wrong MAC
-// always gives ErrDecrypt.
-func VerifC20_DecryptTotal() {
+// always gives ErrDecrypt.  One harness per part of the file that deviates
+// (so that each class of defect is reported by its own harness), plus one
+// where every part varies independently (thorough tier).
+
+func VerifC20_DecryptKDFParams()  { c20DecryptTotal(0) }
+func VerifC20_DecryptIV()         { c20DecryptTotal(1) }
+func VerifC20_DecryptCiphertext() { c20DecryptTotal(2) }
+func VerifC20_DecryptMAC()        { c20DecryptTotal(3 + vs.Choice("which", 2)) }
+func VerifC20_DecryptMalformed()  { c20DecryptTotal(-1) }
+
+func c20DecryptTotal(which int) {
 	version := vs.Choice("version", 2) // 0: v3, 1: v1
 	kdf := vs.Choice("kdf", 3)         // scrypt, pbkdf2, unknown
-	which := vs.Choice("which", 5)
 	pass := vs.Bytes("pass", vs.Param("passlen"))
 	auth := c20Str(pass)
 	salt := vs.BytesN("salt", vs.Param("saltlen"))
@@ -157,7 +164,7 @@ func VerifC20_DecryptTotal() {
 	case 4:
 		what = "cipher name"
 	}
-	if vs.Param("multi") != 0 {
+	if which < 0 {
 		what = "several parts malformed"
 	}
 	vs.Assert(!panicked, "DecryptKey panics instead of returning an error ("+what+")")
